@@ -268,15 +268,61 @@ def native_args_rule(ctx, I, r1='C08.R1', r7='C08.R7'):
                                            'defined in mm on the bed)' % (getattr(a, 'p', a), want))
 
 
+XYZ = ('X_AXIS', 'Y_AXIS', 'Z_AXIS')
+XYZE = XYZ + ('E_AXIS',)
+# what a state-only code may change in the tracked frame: (axes, fields); everything else must keep its value
+HANDLER_FRAME = {
+    'G20': (XYZE, ('unitMultiplier',), ('feedRateUnitMultiplier',)),
+    'G21': (XYZE, ('unitMultiplier',), ('feedRateUnitMultiplier',)),
+    'G90': (XYZE, ('absoluteMode',), ()),
+    'G91': (XYZE, ('absoluteMode',), ()),
+    'G28': (XYZ, ('current', 'offset'), ()),
+    'G92': (XYZE, ('current', 'offset'), ()),
+    'M206': (XYZ, ('current', 'homeOffset'), ()),
+    'M999': ((), (), ()),          # a code without handler of its own
+}
+
+
+def handler_frame(col, gcode, p, where):
+    """a state-only code changes its own part of the tracked frame and nothing else (homing does not touch the extruder or
+    the feed rate, a unit switch does not move an axis ...)"""
+    axes, fields, sfields = HANDLER_FRAME[gcode]
+    for e in p.st.trace:
+        if e[0] != 'write':
+            continue
+        if e[1] == AX and str(e[4]).startswith(S_OID + '.position.'):
+            axn = e[4].split('.')[-1]
+            if axn in axes and e[2] in fields:
+                continue
+            name = '%s.%s' % (e[4], e[2])
+        elif e[1] == 'ExcludeRegionState' and e[4] == S_OID and e[2] in ('feedRate', 'feedRateUnitMultiplier'):
+            if e[2] in sfields:
+                continue
+            name = '%s.%s' % (S_OID, e[2])
+        else:
+            continue
+        for v in live_alts(p.st, e[3]):
+            if isinstance(v, Num) and v.p == Poly.sym(name):
+                continue                    # re-assigned the value it had
+            if e[2] == 'absoluteMode' and v in (True, False) and p.st.dom.get(('fld', e[4], 'absoluteMode')) == frozenset([v]):
+                continue
+            col.report('C08.R3', where, '%s changes %s' % (gcode, name.replace(S_OID + '.', '')),
+                       '%s must leave %s alone (it becomes %r): the firmware does not change it, so the tracked frame and the '
+                       'printer drift apart (a generated G92 E / travel is then computed from the wrong value)'
+                       % (gcode, name.replace(S_OID + '.', ''), getattr(v, 'p', v)))
+            break
+
+
 def sibling_premise(col, gcode, paths, I):
     """C08.R3 as a premise of another property: the unit / positioning-mode codes act on every axis alike"""
     col.rule('C08.R3', 'C08: G20 / G21 set the unit factor of every axis and of the feed rate, G90 / G91 the positioning mode of '
-                       'X, Y, Z (and E as configured) - and nothing else', floor=4)
+                       'X, Y, Z (and E as configured); every state-only code (also G28, G92, M206) changes its own part of the '
+                       'tracked frame and nothing else', floor=4)
     sibling_paths(col, gcode, paths, I, own=False)
 
 
 def state_code_premise(ctx):
-    run_path_rules(ctx, __name__, 'sibling_premise', ['G20', 'G21', 'G90', 'G91'], unroll=1)
+    run_path_rules(ctx, __name__, 'sibling_premise', ['G20', 'G21', 'G90', 'G91', 'G28', 'G92', 'M206', 'M999'], unroll=1)
 
 
 def sibling_paths(col, gcode, paths, I, own=True):
@@ -304,6 +350,8 @@ def sibling_paths(col, gcode, paths, I, own=True):
             if e[0] == 'write' and e[1] == 'ExcludeRegionState' and e[2] == 'feedRateUnitMultiplier':
                 writes.setdefault('feed', {})['feed'] = live_alts(p.st, e[3])
         where = 'GcodeHandlers._handle_%s' % gcode
+        if gcode in HANDLER_FRAME:
+            handler_frame(col, gcode, p, where)
         if gcode in ('G20', 'G21'):
             want = 25.4 if gcode == 'G20' else 1
             got = writes.get('unitMultiplier', {})
@@ -407,7 +455,7 @@ def run(ctx, tier):
     addcommands_rule(ctx, 'C08.R9', 'C08.R9')
     I2 = make_interp(ctx.model)
     native_args_rule(ctx, I2)
-    run_path_rules(ctx, __name__, 'sibling_paths', ['G20', 'G21', 'G90', 'G91', 'G0', 'G1', 'G2', 'G3'], unroll=1)
+    run_path_rules(ctx, __name__, 'sibling_paths', ['G20', 'G21', 'G90', 'G91', 'G28', 'G92', 'M206', 'M999', 'G0', 'G1', 'G2', 'G3'], unroll=1)
     ownership_rule(ctx)
     # generated exit commands are expressed in the frame (unit, offsets) in force when they are generated: C03.R1 / R4
     from . import rules_c03
